@@ -361,6 +361,7 @@ def run_check(name, tier):
             "known_findings_matched": known_seen,
             "batch_digest": digest.hexdigest()[:16],
             "components": chk.components,
+            "exhaustive": bool(tier in getattr(chk, "exhaustive_tiers", ()) and "VERIF_RUNS" not in os.environ),
         },
         "assumptions": chk.assumptions,
     }
